@@ -401,8 +401,21 @@ def _shapes(repo: Path) -> None:
         got = _shape(_body(_func(tree, name, WIRE + ":" + name)))
         if got != want:
             raise TranslationBroken(WIRE + ":" + name, "shape changed:\n" + got)
-    site = WIRE + ":_read_request"
-    fn = _func(tree, "_read_request", site)
+    # the metadata / row-count checks live in _decode_request (called by _read_request once the stream is drained);
+    # older trees have them in _read_request itself
+    has_decode = any(isinstance(n, ast.FunctionDef) and n.name == "_decode_request" for n in tree.body)
+    if has_decode:
+        outer = _func(tree, "_read_request", WIRE + ":_read_request")
+        rets = [n for n in ast.walk(outer) if isinstance(n, ast.Return)]
+        want = "return _decode_request(batch, custom_metadata, external_config, shm, attach_shm)"
+        if not rets or any(ast.unparse(r) != want for r in rets):
+            raise TranslationBroken(WIRE + ":_read_request", "does not return _decode_request(...) on every path")
+        for t in (n for n in ast.walk(outer) if isinstance(n, ast.Try)):
+            hs = [(_class_names(h.type, WIRE), ast.unparse(h.body[-1])[:14]) for h in t.handlers]
+            if hs != [(["RpcError", "VersionError"], "raise"), (["Exception"], "raise RpcError")]:
+                raise TranslationBroken(WIRE + ":_read_request", f"decode-error containment changed: {hs}")
+    site = WIRE + (":_decode_request" if has_decode else ":_read_request")
+    fn = _func(tree, "_decode_request" if has_decode else "_read_request", site)
     raising = []
     for n in ast.walk(fn):
         if isinstance(n, ast.If) and any(isinstance(x, ast.Raise) for x in n.body):
